@@ -443,6 +443,53 @@ def direct_api(ctx, rng, case):
             ctx.violation("value_from_ast:value-differs", dict(witness, literal=text), "library=%r model=%r" % (got[1], expected))
 
 
+def delivered_under_abstract_types(ctx, rng, key):
+    """Whole operations against schemas whose interface implementations declare their own argument
+    defaults, python names and extra optional arguments: one field node is resolved once per concrete
+    type, each time with the arguments that type's own definition yields. The multiset of resolver
+    invocations (type, field, keyword arguments) is compared with the reference executor's."""
+    from ..mon import exec_mon
+    from ..ref import refexec
+
+    case = exec_mon.Case(rng, key, world_kw={"p_error": 0.0, "p_null": 0.02, "p_null_in_nonnull": 0.0},
+                         served=None)
+    for t in case.ir.types.values():
+        if t.kind == "object":
+            case.world._served[t.name] = "resolver"
+    case.binding = type(case.binding)(case.world)
+    case.schema, case.built = S.build_code_schema(case.ir, resolver_for=case.binding.resolver_for,
+                                                  type_resolver_for=case.binding.type_resolver_for)
+    sdl = S.to_sdl(case.ir)[0]
+    for _ in range(10):
+        doc, text, op, variables = exec_mon.gen_request(rng, case)
+        ref = refexec.reference_result(case.ir, doc, op, variables, case.world)
+        if ref[0] != "ok":
+            ctx.abstain("whole-operation:" + ref[0])
+            continue
+        try:
+            exec_mon.run_blocking(case, text, op, variables, rng.choice(["blocking", "generic"]))
+        except Exception as e:
+            ctx.violation("whole-operation:raises:%s" % type(e).__name__, {"schema_sdl": sdl, "document": text,
+                                                                           "variables": variables}, repr(e)[:200])
+            continue
+        ctx.evaluated()
+        ctx.count("whole_operations")
+
+        def norm(calls):
+            from ..gen.world import salt_of
+
+            return sorted(repr((c[0], c[1], c[2], salt_of(c[3]))) for c in calls)
+        got, want = norm(case.binding.calls), norm(ref[3].calls)
+        ctx.count("whole_operation_invocations", len(want))
+        if got != want:
+            extra = [x for x in got if x not in want][:2]
+            missing = [x for x in want if x not in got][:2]
+            ctx.violation("whole-operation:resolver-arguments-differ", {"schema_sdl": sdl, "document": text, "variables": variables},
+                          "delivered but not expected %r; expected but not delivered %r" % (extra, missing))
+        elif len(want) >= 2:
+            ctx.mark_nontrivial([sdl, text, variables])
+
+
 def lib_type_of(case, t):
     import py_gql.schema as PS
 
@@ -475,6 +522,9 @@ def run(ctx):
                 end_to_end_directive(ctx, rng, case, rng.choice(q.fields), d)
         for _ in range(30):
             direct_api(ctx, rng, case)
+    for wi in range(ctx.n(25)):
+        delivered_under_abstract_types(ctx, rng, "c07w:%d:%d:%d" % (ctx.seed, ctx.shard, wi))
+    ctx.require("whole_operation_invocations", 50)
     ctx.require("resolver_invocations_checked", 50)
     ctx.require("kwargs_equal_model", 30)
     ctx.require("rejections", 30)
